@@ -91,6 +91,12 @@ impl LocalFunction {
                 InstrLocId::new(pos as u32)
             };
             validator.op(pos, &inst)?;
+            // The validator reports operators that follow the `end` closing
+            // the function only once the whole body has been read (`finish`
+            // below); they have no control frame to be appended to.
+            if ctx.controls.is_empty() {
+                anyhow::bail!("operators remaining after end of function");
+            }
             append_instruction(&mut ctx, inst, loc);
             instruction_mapping.insert(pos - code_address_offset, loc);
         }
